@@ -16,6 +16,7 @@ leptos_i18n::load_locales!();
 use i18n::*;
 
 mod sets;
+mod fmt;
 
 // ------------------------------------------------------------------------------------------
 // a locale type whose set of supported locales is chosen at run time: exercises the provided
@@ -487,6 +488,7 @@ fn main() {
             "negotiate" => do_negotiate(&c, &mut w),
             "ctx" => do_ctx(&c, &mut w),
             "ident" => sets::do_ident(&c, &mut w),
+            "fmt" => fmt::do_fmt(&c, &mut w),
             other => panic!("unknown mode {}", other),
         }
     }
